@@ -406,6 +406,11 @@ module Z =
   | Zpos x0 -> Zneg x0
   | Zneg x0 -> Zpos x0
 
+  (** val sub : z -> z -> z **)
+
+  let sub m n0 =
+    add m (opp n0)
+
   (** val mul : z -> z -> z **)
 
   let mul x y =
@@ -1560,3 +1565,73 @@ let ns_case tbl_names outer_names var_names locals bi name =
     (match bi with
      | Some _ -> Some (S O)
      | None -> None)
+
+(** val clip_down : z -> z -> z **)
+
+let clip_down n0 i =
+  if Z.ltb i Z0
+  then if Z.ltb (Z.add i n0) Z0 then Zneg XH else Z.add i n0
+  else if Z.leb n0 i then Z.sub n0 (Zpos XH) else i
+
+(** val range_down : nat -> z -> z -> z -> nat list **)
+
+let rec range_down fuel a s stop =
+  match fuel with
+  | O -> []
+  | S f ->
+    if Z.ltb stop a
+    then (Z.to_nat a) :: (range_down f (Z.add a s) s stop)
+    else []
+
+(** val py_slice_neg : nat -> z option -> z option -> z -> nat list **)
+
+let py_slice_neg n0 start stop s =
+  let n1 = Z.of_nat n0 in
+  let a =
+    match start with
+    | Some i -> clip_down n1 i
+    | None -> Z.sub n1 (Zpos XH)
+  in
+  let b = match stop with
+          | Some i -> clip_down n1 i
+          | None -> Zneg XH in
+  range_down n0 a s b
+
+(** val slice_sem_any :
+    nat -> char list -> char list -> char list -> nat list option **)
+
+let slice_sem_any n0 a b c =
+  match opt_int a with
+  | Some oa ->
+    (match opt_int b with
+     | Some ob ->
+       (match opt_int c with
+        | Some oc ->
+          let st = match oc with
+                   | Some s -> s
+                   | None -> Zpos XH in
+          if Z.ltb Z0 st
+          then Some (py_slice_positions n0 oa ob st)
+          else if Z.ltb st Z0 then Some (py_slice_neg n0 oa ob st) else None
+        | None -> None)
+     | None -> None)
+  | None -> None
+
+(** val index_sem_any : nat -> char list -> nat list option **)
+
+let index_sem_any n0 inner =
+  match split_on ch_colon inner with
+  | [] -> None
+  | a :: l ->
+    (match l with
+     | [] ->
+       (match parse_pyint a with
+        | Some z0 -> option_map (fun p -> p :: []) (py_pos n0 z0)
+        | None -> None)
+     | b :: l0 ->
+       (match l0 with
+        | [] -> slice_sem_any n0 a b []
+        | c :: l1 ->
+          (match l1 with
+           | [] -> slice_sem_any n0 a b c
+           | _ :: _ -> None)))
